@@ -1,6 +1,8 @@
 package values
 
 import (
+	"math"
+	"math/big"
 	"reflect"
 )
 
@@ -110,6 +112,24 @@ func compareNumbers(ra, rb reflect.Value) (c int, ok bool) {
 	isNum := func(k reflect.Kind) bool { return isIntKind(k) || isUintKind(k) || isFloatKind(k) }
 	if !isNum(ka) || !isNum(kb) {
 		return 0, false
+	}
+	if isFloatKind(ka) != isFloatKind(kb) {
+		// an integer and a float: exactly (a 64-bit integer turned into a float may be rounded to its neighbour)
+		ri, rf, sign := ra, rb, 1
+		if isFloatKind(ka) {
+			ri, rf, sign = rb, ra, -1
+		}
+		f := rf.Float()
+		if math.IsNaN(f) {
+			return 2, true
+		}
+		bi := new(big.Float).SetPrec(64)
+		if isUintKind(ri.Kind()) {
+			bi.SetUint64(ri.Uint())
+		} else {
+			bi.SetInt64(ri.Int())
+		}
+		return sign * bi.Cmp(new(big.Float).SetFloat64(f)), true
 	}
 	if isFloatKind(ka) || isFloatKind(kb) {
 		fa, fb := toFloat(ra), toFloat(rb)
